@@ -445,7 +445,7 @@ class TkCfg:
                    w(t.flag_fuse_velocity), w(t.flag_simplify_time_signature)])
 
 
-SEQ_STATES = ["rel", "abs", "both", "stale-rel", "stale-abs"]
+SEQ_STATES = ["rel", "abs", "both", "stale-rel", "stale-abs", "churned", "churned"]
 
 
 def seq_in_state(rel, state):
@@ -461,6 +461,8 @@ def seq_in_state(rel, state):
     if state == "both":
         want.refresh()
         return want
+    if state == "churned":
+        return seq_churned(rel)
     g = [(8, 0, 7, None, None, None, None, None, None, None)] + [
         ((m[0], m[1], m[2], (m[3] + 1 if m[3] is not None and m[3] < 127 else m[3])) + tuple(m[4:])) for m in rel]
     if state == "stale-rel":
@@ -474,6 +476,41 @@ def seq_in_state(rel, state):
         s.overwrite_relative_messages([to_real(m) for m in rel])
         return s
     raise ValueError(state)
+
+
+def _timed_rel(rel):
+    t, out = 0, []
+    for m in rel:
+        if m[0] == 8:
+            t += m[2]
+        else:
+            out.append((t,) + tuple(m[:2]) + tuple(m[3:]))
+    return sorted(out, key=lambda x: (x[0], repr(x))), t
+
+
+def seq_churned(rel):
+    """an object WITH A PAST that still holds exactly `rel`: public operations that do not change the content have been run on it
+    (reads, refresh, pairings, equals with a copy, split / bar splitting, to_midi_track, pad(0), scale(1), transpose(0), merge([]),
+    concatenate([]), normalise / quantise when they change nothing).  Anything an operation leaves behind in the object (a flag, a cached
+    result, a re-sorted view) is then present when the operation under test runs.  Falls back to lighter churn, then to a plain object,
+    whenever the content would not be exactly `rel` any more."""
+    want = _timed_rel(rel)
+    heavy = [lambda s: s.refresh(), lambda s: s.is_empty(), lambda s: s.get_sequence_duration(), lambda s: s.to_midi_track(),
+             lambda s: s.get_message_pairings(), lambda s: s.equals(s.copy()), lambda s: s.split([24, 24]), lambda s: s.pad(0),
+             lambda s: s.scale(1, quantise_afterwards=False), lambda s: s.transpose(0), lambda s: s.concatenate([]), lambda s: s.merge([]),
+             lambda s: s.normalise(), lambda s: s.quantise([1]), lambda s: s.get_interleaved_message_pairings(),
+             lambda s: Sequence.sequences_split_bars([s], 0, False), lambda s: s.is_channel_consistent(), lambda s: s.refresh()]
+    light = heavy[:11]
+    for ops in (heavy, light, heavy[:6]):
+        s = seq_of_rel(rel)
+        try:
+            for op in ops:
+                op(s)
+            if _timed_rel(content_of(s)) == want and content_of(s) == list(rel):
+                return s
+        except Exception:
+            pass
+    return seq_of_rel(rel)
 
 
 def seq_after_prelude(rel, state, prelude):
